@@ -2,7 +2,7 @@
    the abstract round of TerminationProofs.v (C02, lifting step).  Part 1: the actions of the plan, ordinal by
    ordinal. *)
 From ASTS Require Import Base Slots SlotsProofs Names NamesProofs World Reconcile ReconcileCheck MonadProofs PlanProofs
-                         ConvergeProofs PodControlProofs Env QuietProofs TerminationProofs TerminationEnv RoundExec.
+                         ConvergeProofs PodControlProofs Env QuietProofs TerminationProofs TerminationEnv RoundExec RoundCheck.
 
 Definition act_ord (a : act) : Z := match a with ADelete p | AUpdate p | ACreate p => getOrdinal p end.
 Definition acts_at (j : Z) (acts : list act) : list act := filter (fun a => act_ord a =? j) acts.
@@ -22,6 +22,49 @@ Proof.
 Qed.
 Lemma acts_at_In j l a : In a (acts_at j l) <-> In a l /\ act_ord a = j.
 Proof. unfold acts_at. rewrite filter_In, Z.eqb_eq. reflexivity. Qed.
+
+(* ---------------------------------------------------------------- any outcome, final API state --------- *)
+Definition hk {A} (P : world -> Prop) (m : M A) (Post : world -> Prop) : Prop :=
+  forall st, P (rs_api st) -> rs_faults st = [] -> forall r st', m st = (r, st') -> Post (rs_api st').
+Lemma hk_bind_hoare {A B} (P : world -> Prop) (m : M A) (f : A -> M B) (Q : A -> world -> Prop) (Post : world -> Prop) :
+  hoare P m Q -> (forall v, hk (Q v) (f v) Post) -> hk P (bind m f) Post.
+Proof.
+  intros Hm Hf st HP Hfl r st' E. destruct (Hm st HP Hfl) as (v & s1 & E1 & F1 & Q1).
+  unfold bind in E. rewrite E1 in E. apply (Hf v s1 Q1 F1 r st' E).
+Qed.
+Lemma hk_keeps {A} (Rel : world -> world -> Prop) (P : world -> Prop) (m : M A) (Post : world -> Prop) :
+  keeps Rel m -> (forall w w', P w -> Rel w w' -> Post w') -> hk P m Post.
+Proof. intros Hk Hp st HP _ r st' E. apply (Hp _ _ HP). apply (Hk _ _ _ E). Qed.
+Lemma reads_hoare {A} w (m : M A) v : reads w m v -> hoare (fun x => x = w) m (fun r x => r = v /\ x = w).
+Proof. intros Hr st HP Hf. destruct (Hr st HP Hf) as (s1 & E & W1 & F & _). exists v, s1. repeat split; assumption. Qed.
+
+Definition same_pods (a b : world) : Prop := w_pods a = w_pods b.
+Lemma same_pods_refl a : same_pods a a. Proof. reflexivity. Qed.
+Lemma same_pods_trans a b c : same_pods a b -> same_pods b c -> same_pods a c.
+Proof. unfold same_pods. congruence. Qed.
+
+Lemma keeps_pods_status_retry s st : forall fuel last, keeps same_pods (update_status_retry fuel s st last).
+Proof.
+  induction fuel as [|f IH]; intros last; cbn [update_status_retry].
+  - apply (keeps_fail _ same_pods_refl).
+  - apply (keeps_bind _ same_pods_trans).
+    + apply keeps_try. unfold api_update_status. apply (keeps_call _ same_pods_refl). intros w x w' E.
+      destruct (w_set w) as [a|]; [|inversion E; reflexivity].
+      destruct (s_rv a =? s_rv s); inversion E; reflexivity.
+    + intros [u|e]; [apply (keeps_ret _ same_pods_refl)|]. destruct (is_conflict e); [apply IH | apply (keeps_fail _ same_pods_refl)].
+Qed.
+Lemma keeps_pods_set_status s st : keeps same_pods (update_set_status s st).
+Proof.
+  unfold update_set_status. destruct (inconsistent_status s (complete_rolling_update s st));
+    [apply keeps_pods_status_retry | apply (keeps_ret _ same_pods_refl)].
+Qed.
+Lemma keeps_pods_truncate s pods revs cur upd : keeps same_pods (truncate_history s pods revs cur upd).
+Proof.
+  unfold truncate_history. destruct (s_rhl s) as [limit|]; [|apply (keeps_panic _ same_pods_refl)]. cbv zeta.
+  match goal with |- context [if ?c then _ else _] => destruct c end; [apply (keeps_ret _ same_pods_refl)|].
+  apply (keeps_forM _ same_pods_refl same_pods_trans). intros r. unfold api_delete_rev.
+  apply (keeps_call _ same_pods_refl). intros w x w' E. destruct (find_rev (r_name r) (w_revs w)); inversion E; reflexivity.
+Qed.
 
 Section Lift.
 Variable s : sset.
@@ -559,4 +602,125 @@ Qed.
 End Exec.
 
 End OnePlan.
+
+(* ---------------------------------------------------------------- the whole round --------------------- *)
+Section Assembly.
+Variable hashes : list ((Z * Z) * string).
+Variable w : world.
+Variables (rcur rupd : rev) (coll r : Z).
+Hypothesis Hset : w_set w = Some s.
+Hypothesis Hpause : get_paused (s_pause s) = false.
+Hypothesis Hsel : s_selector s = SelOk.
+Hypothesis Hadopt : nothing_to_adopt w s = true.
+Hypothesis Hclaimq : forallb (claim_quiet s) (w_pods w) = true.
+Hypothesis Hclaimv : claim_value s (w_pods w) = w_pods w.
+Hypothesis Hgsr : gsr_value hashes s (sort_revs (lrevs w s)) = Some (rcur, rupd, coll).
+Hypothesis Hcur : cur = {| ri_name := r_name rcur; ri_tmpl := r_tmpl rcur |}.
+Hypothesis Hupd : upd = {| ri_name := r_name rupd; ri_tmpl := r_tmpl rupd |}.
+Hypothesis Hrep : s_replicas s = Some r.
+Hypothesis Hext : extend r (get_slots (s_slots s)) = (cnt, slots).
+Hypothesis W : wf s cnt slots (w_pods w).
+Hypothesis Hnd : NoDup (w_pods w).
+Hypothesis Hcc : forall j, in_range cnt slots j = true -> claims_cached s w j.
+
+Let pods := w_pods w.
+Let acts := plan_acts s cur upd cnt slots pods.
+Let cache := {| w_set := w_set w; w_pods := w_pods w; w_revs := []; w_claims := w_claims w |}.
+
+Lemma plan_some : exists po, plan_pods s cur upd coll pods = Some po /\ po_acts po = acts.
+Proof.
+  assert (E : exists po, plan_pods s cur upd coll pods = Some po).
+  { unfold plan_pods. rewrite Hrep, Hext. replace (cnt <? 0) with false by (symmetry; apply Z.ltb_ge; lia).
+    rewrite Hdel.
+    destruct (rloop _ _ _ _ _ _ _) as [[[a1 st1] go1] rep']. destruct (negb go1); [eexists; reflexivity|].
+    destruct (cloop _ _ _ _ _ _) as [[a2 st2] go2]. destruct (negb go2); [eexists; reflexivity|].
+    destruct (String.eqb (s_strategy s) "OnDelete"); [eexists; reflexivity|].
+    destruct (uloop _ _ _ _ _ _) as [a3 st3]. eexists; reflexivity. }
+  destruct E as [po E]. exists po. split; [exact E|].
+  destruct (plan_pods_acts _ _ _ _ _ _ E) as (r' & cnt' & slots' & H1 & H2 & _ & H4).
+  rewrite Hrep in H1. inversion H1; subst r'. rewrite Hext in H2. inversion H2; subst. exact H4.
+Qed.
+
+Lemma sync_pods : hk (fun x => x = w) (sync hashes cache) (fun x => w_pods x = fold_left (exec1 s) acts pods).
+Proof.
+  unfold sync. cbn [cache w_set]. rewrite Hset, Hpause, Hsel.
+  eapply hk_bind_hoare; [apply reads_hoare; apply reads_adopt; exact Hadopt|]. intros u. cbv beta.
+  eapply hk_bind_hoare.
+  { eapply hoare_conseq; [| |apply (reads_hoare w); apply (reads_claim_pods w s (w_pods w) None false Hclaimq)].
+    - intros x [_ Hx]. exact Hx.
+    - intros v x Hx. exact Hx. }
+  intros x. cbv beta.
+  intros st [Hx HP] Hf. subst x. cbn [fst snd]. rewrite Hclaimv. revert st HP Hf.
+  change (hk (fun x => x = w) (update_stateful_set hashes s cache (w_pods w)) (fun x => w_pods x = fold_left (exec1 s) acts pods)).
+  unfold update_stateful_set.
+  eapply hk_bind_hoare; [apply reads_hoare; apply reads_list_revisions|]. intros revs0. cbv beta.
+  intros st [Hr HP] Hf. subst revs0. revert st HP Hf.
+  match goal with |- forall st, _ -> _ -> forall r0 st', ?m st = _ -> _ => change (hk (fun x => x = w) m (fun x => w_pods x = fold_left (exec1 s) acts pods)) end.
+  eapply hk_bind_hoare; [apply reads_hoare; apply (reads_gsr hashes w s _ _ Hgsr)|]. intros y. cbv beta.
+  intros st [Hy HP] Hf. subst y. cbv beta iota zeta. rewrite <- Hcur, <- Hupd.
+  destruct plan_some as (po & Hpo & Hacts). fold pods. rewrite Hpo, Hacts. revert st HP Hf.
+  match goal with |- forall st, _ -> _ -> forall r0 st', ?m st = _ -> _ => change (hk (fun x => x = w) m (fun x => w_pods x = fold_left (exec1 s) acts pods)) end.
+  eapply hk_bind_hoare.
+  { apply (exec_acts_ok s cache acts w). apply (plan_all_ok pods W cache). intros j R. apply Hcc. exact R. }
+  intros u'. cbv beta.
+  apply (hk_keeps same_pods).
+  - apply (keeps_bind _ same_pods_trans); [apply keeps_pods_set_status | intros _; apply keeps_pods_truncate].
+  - intros a b -> Hab. unfold same_pods in Hab. rewrite <- Hab. reflexivity.
+Qed.
+
+
+Lemma all_ok_names_nodup : forall l L, all_ok s cache L l -> NoDup (map p_name L) -> NoDup (map p_name (fold_left (exec1 s) l L)).
+Proof.
+  induction l as [|a t IH]; intros L Hok Hn; cbn [fold_left all_ok] in *; [exact Hn|].
+  destruct Hok as [H1 H2]. apply IH; [exact H2|]. apply exec1_nodup; [exact Hn|].
+  intros f ->. cbn [okact] in H1. tauto.
+Qed.
+
+(* THE LIFTING STEP: one fair round of the full model (caches catch up, reconcile without faults, terminating
+   pods finish, the others become Running and Ready) leaves a duplicate-free pod list with exactly the members
+   of the abstract round *)
+Theorem lift_round :
+  let w' := env_round hashes w in
+  NoDup (w_pods w') /\ same_members (w_pods w') (round s upd cnt slots cur pods).
+Proof.
+  cbv zeta. unfold env_round. cbn [hrun hstep fst hw_api hw_cache].
+  fold cache.
+  destruct (reconcile hashes w cache []) as [[o lg] w1] eqn:Er. cbn [fst hw_api].
+  (* the pods after the reconcile *)
+  assert (Hp1 : w_pods w1 = fold_left (exec1 s) acts pods).
+  { unfold reconcile in Er.
+    destruct (sync hashes cache {| rs_api := w; rs_log := []; rs_n := 0; rs_faults := [] |}) as [r0 st'] eqn:Es.
+    inversion Er as [[Eo El Ew]]. exact (sync_pods {| rs_api := w; rs_log := []; rs_n := 0; rs_faults := [] |} eq_refl eq_refl r0 st' Es). }
+  set (names := map p_name (w_pods w1)).
+  set (wf_ := fold_left (fun a m => kubelet a m KSettle) names (fold_left (fun a m => kubelet a m KGone) names w1)).
+  assert (Hok : all_ok s cache pods acts) by (apply (plan_all_ok pods W cache); intros j R; apply Hcc; exact R).
+  assert (Hn0 : NoDup (map p_name pods)) by (apply wf_names_nodup; assumption).
+  assert (Hn1 : NoDup (map p_name (w_pods w1))) by (rewrite Hp1; apply all_ok_names_nodup; assumption).
+  assert (Hnf : NoDup (map p_name (w_pods wf_))).
+  { unfold wf_. apply kubelet_fold_nodup; [right; reflexivity|]. apply kubelet_fold_nodup; [left; reflexivity | exact Hn1]. }
+  assert (Hlook : forall n, look n (w_pods wf_) = post (fold_left (step1 s) (acts_for s n acts) (look n pods))).
+  { intros n. unfold wf_, names. rewrite look_settled, Hp1, look_fold, life_acts_for. reflexivity. }
+  assert (Hcanon : forall j, 0 <= j <= max_i32 -> look (pod_name (s_name s) j) (w_pods wf_) = at_ord j (round s upd cnt slots cur pods)).
+  { intros j Hj. rewrite Hlook, (acts_for_at pods W j acts Hj (fun a H => H)), (wf_look_at_ord pods j W Hj).
+    apply (rounds_agree_at pods W j Hj). }
+  split.
+  - apply (NoDup_map_inv p_name). exact Hnf.
+  - intros q. split; intros Hq.
+    + pose proof (look_unique _ Hnf q Hq) as Hl.
+      assert (Hc : exists j, 0 <= j <= max_i32 /\ p_name q = pod_name (s_name s) j).
+      { rewrite Hlook in Hl. destruct (look (p_name q) pods) as [p|] eqn:Lp.
+        - destruct (look_In _ _ _ Lp) as [Hp Hpn]. exists (getOrdinal p). split; [apply (wf_ord _ _ _ _ W p Hp)|].
+          rewrite <- Hpn. apply (wf_name _ _ _ _ W p Hp).
+        - destruct (acts_for s (p_name q) acts) as [|a t] eqn:Ea; [cbn in Hl; discriminate|].
+          assert (Ha : In a (acts_for s (p_name q) acts)) by (rewrite Ea; left; reflexivity).
+          unfold acts_for in Ha. apply filter_In in Ha. destruct Ha as [Ha Hm]. apply String.eqb_eq in Hm.
+          destruct (act_name_ord pods W a Ha) as [Hn Ho]. exists (act_ord a). split; [exact Ho | rewrite Hm; exact Hn]. }
+      destruct Hc as (j & Hj & Hn). rewrite Hn, (Hcanon j Hj) in Hl. apply at_ord_Some in Hl. tauto.
+    + pose proof (Rwf pods W) as Wr.
+      pose proof (wf_ord _ _ _ _ Wr q Hq) as Ho. pose proof (wf_name _ _ _ _ Wr q Hq) as Hn.
+      pose proof (at_ord_unique _ _ q (wf_dist _ _ _ _ Wr) Hq eq_refl (proj1 Ho)) as Ha.
+      rewrite <- (Hcanon _ Ho), <- Hn in Ha. apply look_In in Ha. tauto.
+Qed.
+
+End Assembly.
 End Lift.
